@@ -6,7 +6,8 @@
 From Coq Require Import List Bool Arith NArith.
 From Coq.Strings Require Import Byte.
 From GI Require Import Lib.Bytes Txtar.Txtar
-  TsRun.TsFs TsRun.TsState TsRun.TsCmds TsRun.TsRun TsRun.TsUpdate TsRun.TsUpdateFacts.
+  TsRun.TsFs TsRun.TsState TsRun.TsCmds TsRun.TsRun TsRun.TsSpec TsRun.TsUpdate TsRun.TsUpdateFacts
+  TsRun.TsRerun TsRun.TsRerunFacts.
 Import ListNotations.
 
 Theorem C16_update_names : forall a U a',
@@ -119,3 +120,55 @@ Theorem C16_update_ok_verdict : forall cfg work env file,
   f_run (run_file_full cfg work env file) = run_file cfg work env file.
 Proof. exact update_ok_verdict. Qed.
 Print Assumptions C16_update_ok_verdict.
+
+(* the restricted re-run fix-point (TsRun/TsRerun.v: every executed line is tree-free or is the
+   only `cmp stdout|stderr G` of its archive entry): the two runs go in lockstep *)
+Theorem C16_rerun_lockstep : forall cfg fs2 Ufinal,
+  c_update cfg = true ->
+  forall ls n st1 seen stF,
+  (forall d, is_dir_node (stat fs2 d) = is_dir_node (stat (s_fs st1) d)) ->
+  golden_tables st1 fs2 Ufinal ->
+  (forall e, ~ In e seen -> assoc_get (s_updates st1) e = None) ->
+  safe_run cfg ls n st1 seen ->
+  run_lines cfg ls n false st1 = (EPass, stF, []) ->
+  (forall e, assoc_get Ufinal e = assoc_get (s_updates stF) e) ->
+  run_lines (cfg_update cfg false) ls n false (swapfu st1 fs2 []) = (EPass, swapfu stF fs2 [], []).
+Proof. exact rerun_lockstep. Qed.
+Print Assumptions C16_rerun_lockstep.
+
+Theorem C16_rerun_fixpoint_restricted_partial : forall cfg work env a a' st1 st2 stF,
+  c_update cfg = true ->
+  setup cfg work env a = (st1, true) ->
+  setup (cfg_update cfg false) work env a' = (st2, true) ->
+  comment a' = comment a ->
+  st2 = swapfu st1 (s_fs st2) [] ->
+  shape_eq (s_fs st2) (s_fs st1) ->
+  s_updates st1 = [] ->
+  run_script cfg (comment a) st1 = {| r_verdict := Pass; r_final := stF; r_fail_lines := [] |} ->
+  golden_tables st1 (s_fs st2) (s_updates stF) ->
+  safe_run cfg (script_lines (comment a)) 0 st1 [] ->
+  run_archive (cfg_update cfg false) work env a'
+  = {| r_verdict := Pass; r_final := swapfu stF (s_fs st2) []; r_fail_lines := [] |}.
+Proof. exact rerun_fixpoint_restricted_partial. Qed.
+Print Assumptions C16_rerun_fixpoint_restricted_partial.
+
+Theorem C16_rerun_writes_nothing : forall cfg work env file',
+  f_change (run_file_full (cfg_update cfg false) work env file') = Untouched.
+Proof. exact rerun_writes_nothing. Qed.
+Print Assumptions C16_rerun_writes_nothing.
+
+(* the restricted fix-point at file level: all side conditions are one executable check,
+   [rerun_covered], which the runner evaluates on every generated case *)
+Theorem C16_rerun_fixpoint_covered : forall cfg work env file file',
+  c_update cfg = true ->
+  r_verdict (f_run (run_file_full cfg work env file)) = Pass ->
+  rerun_covered cfg work env file file' = true ->
+  r_verdict (f_run (run_file_full (cfg_update cfg false) work env file')) = Pass
+  /\ f_change (run_file_full (cfg_update cfg false) work env file') = Untouched.
+Proof. exact rerun_fixpoint_covered. Qed.
+Print Assumptions C16_rerun_fixpoint_covered.
+
+Theorem C16_safe_run_b_sound : forall cfg ls n st seen,
+  safe_run_b cfg ls n st seen = true -> safe_run cfg ls n st seen.
+Proof. exact safe_run_b_sound. Qed.
+Print Assumptions C16_safe_run_b_sound.
